@@ -296,6 +296,30 @@ def gen_hist(ch, opts, real_limit=False):
                         c.features.add('same_element_other_scale_or_reference')
                     cases.extend(pair)
                     continue
+            if ch.bool(1, 6):
+                # a message that names tables which are not installed: the decoder falls back (default master version, the
+                # centre's sub-centre 0, or no local table), the encoder takes the numbers literally and refuses -- in a fresh
+                # process and therefore after any history
+                o2 = gmsg.GenOpts('quick')
+                o2.versions, o2.local_tables, o2.max_subsets, o2.extra_widths = [33], False, 2, False
+                o2.template = gtemplates.Opts(max_ids=6)
+                try:
+                    d = gmsg.gen_case(ch, o2).to_json()
+                    relabel = ch.choice([{'master_table_version': 42}, {'master_table_version': 99},
+                                         {'originating_centre': 98, 'originating_subcentre': 70, 'local_table_version': 1},
+                                         {'originating_centre': 7, 'originating_subcentre': 0, 'local_table_version': 5}])
+                    if d['meta']['edition'] == 2:
+                        relabel.pop('originating_subcentre', None)
+                    d['meta'].update(relabel)
+                    c = gmsg.Case.from_json(d)
+                    if not c.decoded.ambiguous() and not rtree.has_undefined(c.tree):
+                        c.features.add('names_tables_that_are_not_installed')
+                        cases.append(c)
+                        continue
+                except Reject:
+                    raise
+                except Exception:
+                    pass
             cases.append(gmsg.gen_case(ch, opts))
     damaged = []
     for _ in range(ch.int(0, 2)):
@@ -341,6 +365,11 @@ def gen_hist(ch, opts, real_limit=False):
             pos = ch.int(0, len(ops))
             pair = [same_top[0], k] if ch.bool() else [k, same_top[0]]
             ops[pos:pos] = [('decode', j, x) for x in pair] + [('encode', j, x) for x in pair]
+    for k in [k for k, c in enumerate(cases) if 'names_tables_that_are_not_installed' in c.features]:
+        # decoded and encoded back to back, in either order (the two resolve the table numbers differently)
+        pos = ch.int(0, len(ops))
+        pair = [('decode', ch.int(0, n_coders - 1), k), ('encode', ch.int(0, n_coders - 1), k)]
+        ops[pos:pos] = pair if ch.bool() else pair[::-1]
     if twin_idx and not real_limit:
         j = ch.int(0, n_coders - 1)
         pos = ch.int(0, len(ops))
@@ -407,6 +436,8 @@ def check_hist(hc):
         cls.add('twins_with_and_without_local_table')
     if any('near_twin_template' in c.features for c in hc.cases):
         cls.add('templates_that_differ_only_inside_a_replication')
+    if any('names_tables_that_are_not_installed' in c.features for c in hc.cases):
+        cls.add('message_names_tables_that_are_not_installed')
     out.classes = sorted(cls) + ['table_limit_%s' % (hc.table_limit or 'real')] + sorted(set('coder_cache_%s' % c for c in hc.coder_caches))
     out.nontrivial = bool(cls & {'revisit_after_table_eviction', 'revisit_after_compiled_eviction', 'revisit_after_failure'})
     pool = hc.pool()
